@@ -9,7 +9,11 @@
 //   * every replacement of a lexeme by / insertion of a symbol of a fixed alphabet of grammar-language
 //     lexemes and junk (small seeds: whole alphabet; large seeds: a short alphabet or none),
 //   * (thorough) swaps of adjacent lexemes, duplications, and every sequence of up to 4 (quick: 3)
-//     symbols of a 14-symbol alphabet.
+//     symbols of a 14-symbol alphabet,
+//   * two built-in seeds with one of every lexeme class of the lexer (escapes, multi-byte characters in
+//     strings and comments, block / doc comments, a last line without newline), treated like seed files,
+//   * a deterministic byte soup: 40 000 (thorough: 400 000) texts of up to 12 characters out of
+//     quotes, backslashes, comment starts and 2/3/4-byte characters.
 // For every text: no panic, returns within the watchdog time, every diagnostic label lies inside the
 // text on character boundaries with start <= end.
 //
@@ -28,6 +32,18 @@ const ALPHA: &[&str] = &[
     "(", ")", "^", "~", "&", "@a", "<1", "1>", ">", "<", "=", "1", "$", "\u{e9}", "'", "//c\n", "\"", "\u{0}", "a:", "A='a'",
 ];
 const SHORT: &[&str] = &["token", "start", "A", "a", ":", ";", "|", "/", "*", "(", ")", "^", "1>", "$"];
+// lexemes of the string / comment sub-languages of the lexer (escapes, multi-byte characters, block
+// and doc comments); used as replacements / insertions next to ALPHA on the small seeds
+const LEXALPHA: &[&str] = &["\\", "'\\''", "'\\\\'", "'\\x'", "'\\\u{e9}'", "'\u{e9}'", "'\\", "/*", "*/", "/*c*/", "///d\n", "\u{20ac}", "\u{1f600}"];
+// built-in seeds (always run, with every prefix / deletion / replacement like the seed files): one of
+// every lexeme class of src/frontend/lexer.rs, valid and invalid escapes, multi-byte characters in
+// strings and comments, a last line without newline
+const LEXSEEDS: &[&str] = &[
+    "token A='\\'' B='\\\\' C='\\\u{e9}' D='\u{e9}' E='\\x';\n/* c \u{e9} */ /// doc \u{e9}\nstart s; // \u{e9}\ns: A '\\\\' ?1 #1 !1 @n <1 1>x > ^ ~ & [B] (C | D)* / E ?t;\n// end '\\",
+    "token A='a';\nstart s;\ns: A '\\\u{20ac}' '\u{1f600}\\\u{1f600}' /* \u{1f600}",
+];
+// characters of the byte soup (deterministic pseudo-random texts of up to 12 of them)
+const SOUP: &[&str] = &["'", "\\", "\u{e9}", "/", "*", "\n", "a", " ", "\u{20ac}", "\u{1f600}", ":", ";", "?", "1", ">", "@"];
 
 fn lexemes(s: &str) -> Vec<(usize, usize)> {
     let b: Vec<(usize, char)> = s.char_indices().collect();
@@ -127,10 +143,12 @@ fn variants(seed: &str, thorough: bool, lo: usize, hi: usize) {
         t.push_str(&seed[..a]); t.push_str(&seed[b..]);
         run(&t);
     }
-    let alpha: &[&str] = if total <= 150 { ALPHA } else if total <= 700 && thorough { SHORT } else if total <= 300 { SHORT } else { &[] };
+    let base: &[&str] = if total <= 150 { ALPHA } else if total <= 700 && thorough { SHORT } else if total <= 300 { SHORT } else { &[] };
+    let mut alpha: Vec<&str> = base.to_vec();
+    if total <= 150 { alpha.extend_from_slice(LEXALPHA); }
     for &(a, b) in lx {
         if seed[a..b].trim().is_empty() && !thorough { continue; }
-        for s in alpha {
+        for s in &alpha {
             let mut t = String::with_capacity(seed.len() + 8);
             t.push_str(&seed[..a]); t.push_str(s); t.push_str(&seed[b..]);
             run(&t);
@@ -171,6 +189,19 @@ fn short_sequences(maxlen: usize) {
     }
 }
 
+/// deterministic byte soup: `n` texts of 1..=12 SOUP characters (fixed-seed LCG, so every run and
+/// every replay sees the same texts)
+fn soup(n: usize) {
+    let mut x: u64 = 0x9e3779b97f4a7c15;
+    let mut next = || { x = x.wrapping_mul(6364136223846793005).wrapping_add(1442695040888963407); (x >> 33) as usize };
+    for _ in 0..n {
+        let len = 1 + next() % 12;
+        let mut t = String::new();
+        for _ in 0..len { t.push_str(SOUP[next() % SOUP.len()]); }
+        run(&t);
+    }
+}
+
 fn main() {
     let args: Vec<String> = std::env::args().collect();
     if args.len() < 2 { eprintln!("usage: fecheck <quick|thorough> <seed.llw>..."); std::process::exit(2); }
@@ -196,7 +227,8 @@ fn main() {
             }
         }
     });
-    let seeds: Vec<String> = args[2..].iter().filter_map(|p| std::fs::read_to_string(p).ok()).collect();
+    let mut seeds: Vec<String> = args[2..].iter().filter_map(|p| std::fs::read_to_string(p).ok()).collect();
+    seeds.extend(LEXSEEDS.iter().map(|s| s.to_string()));
     // work items: (seed, chunk of lexemes); the last item is the exhaustive short-sequence family
     let mut items: Vec<(usize, usize)> = vec![];
     for (i, s) in seeds.iter().enumerate() {
@@ -213,8 +245,9 @@ fn main() {
         let (next, seeds, items) = (next.clone(), seeds.clone(), items.clone());
         hs.push(std::thread::Builder::new().stack_size(256 << 20).spawn(move || loop {
             let i = next.fetch_add(1, Ordering::SeqCst) as usize;
-            if i == items.len() { short_sequences(if thorough { 4 } else { 3 }); }
-            if i >= items.len() { break; }
+            if i == items.len() { short_sequences(if thorough { 4 } else { 3 }); continue; }
+            if i == items.len() + 1 { soup(if thorough { 400_000 } else { 40_000 }); continue; }
+            if i > items.len() + 1 { break; }
             let (si, lo) = items[i];
             variants(&seeds[si], thorough, lo, lo + CHUNK);
         }).unwrap());
